@@ -233,6 +233,9 @@ func c05Run(c *fw.Ctx) {
 		{"u1@a.test", "u2@A.TEST", "u3@b.test", "u4@sub.a.test", "u5@B.test", "u6@[IPv6:2001:DB8::1]"},
 		{"u6@[IPv6:2001:DB8::1]", "u5@B.test", "u4@sub.a.test", "u3@b.test", "u2@A.TEST", "u1@a.test"},
 		{"u1@a.test", "u1@a.test", "u3@b.test"},
+		// one local part in several domains (one mailbox under local naming, one verdict per domain)
+		{"u1@a.test", "u1@b.test", "u1@sub.a.test"},
+		{"u1@sub.a.test", "u1@b.test", "u1@a.test"},
 	}
 	sl := subsets(c05ListPool, 1)
 	for _, da := range []bool{true, false} {
@@ -247,7 +250,7 @@ func c05Run(c *fw.Ctx) {
 									if !c.Mine(n) {
 										continue
 									}
-									if !c.Thorough() && (oi == 2 && mr != 2) {
+									if !c.Thorough() && ((oi == 2 && mr != 2) || (oi >= 3 && mr != 3)) {
 										continue
 									}
 									if c.Expired() {
